@@ -28,6 +28,7 @@ import (
 	"path/filepath"
 	"sort"
 	"strings"
+	"sync"
 	"syscall"
 	"time"
 	"unicode"
@@ -580,6 +581,8 @@ type c19FileCase struct {
 	Glove []byte // nil = file absent
 	Cmd   []byte
 	InSub bool // files live in ./assets/
+	// the files are named pipes fed with the bytes (a decompressor streaming into the path): the size is unknown up front
+	GloveFifo, CmdFifo bool
 	// expectation for well-formed files (generator sanity, never a violation)
 	Valid     bool
 	WantVocab int64
@@ -654,6 +657,19 @@ func c19FileCases(seed int64, thorough bool) []c19FileCase {
 			Cmd: append(append([]byte(nil), vCmd...), 9, 9, 9), Valid: true, WantVocab: 2, WantCmds: 2})
 		// count smaller than the records present
 		add(c19FileCase{Class: "files-valid", Name: "count below records", Glove: c19Glove(1, words, vecs), Cmd: c19CmdFile(1, c19Dim, cvecs), Valid: true, WantVocab: 1, WantCmds: 1})
+	}
+
+	// --- streams: the path is a named pipe; what arrives is short, what the header claims is large
+	{
+		hdr := func(count uint32, body int) []byte { return append(c19U32(nil, count), make([]byte, body)...) }
+		for _, cnt := range []uint32{2000000, 50000000, 0x7fffffff, 0xffffffff} {
+			add(c19FileCase{Class: "files-stream", Name: fmt.Sprintf("glove.bin is a pipe: header claims %d words, 10 more bytes follow", cnt), Glove: hdr(cnt, 10), GloveFifo: true})
+			add(c19FileCase{Class: "files-stream", Name: fmt.Sprintf("cmd_embeddings.bin is a pipe: header claims %d commands of 100, 8 more bytes follow", cnt), Glove: vGlove,
+				Cmd: append(c19U32(c19U32(nil, cnt), 100), make([]byte, 8)...), CmdFifo: true})
+		}
+		add(c19FileCase{Class: "files-stream", Name: "glove.bin is a pipe carrying a valid file", Glove: vGlove, Cmd: vCmd, GloveFifo: true})
+		add(c19FileCase{Class: "files-stream", Name: "both are pipes carrying valid files", Glove: vGlove, Cmd: vCmd, GloveFifo: true, CmdFifo: true})
+		add(c19FileCase{Class: "files-stream", Name: "glove.bin is a pipe that delivers nothing", Glove: []byte{}, GloveFifo: true})
 	}
 
 	// --- every truncation of a small valid file, at every byte offset
@@ -841,17 +857,58 @@ func c19WriteDir(dir string, fc c19FileCase) error {
 	if err := os.MkdirAll(d, 0o755); err != nil {
 		return err
 	}
-	if fc.Glove != nil {
-		if err := os.WriteFile(filepath.Join(d, "glove.bin"), fc.Glove, 0o644); err != nil {
-			return err
+	put := func(name string, data []byte, fifo bool) error {
+		if data == nil {
+			return nil
+		}
+		if fifo {
+			return syscall.Mkfifo(filepath.Join(d, name), 0o644)
+		}
+		return os.WriteFile(filepath.Join(d, name), data, 0o644)
+	}
+	if err := put("glove.bin", fc.Glove, fc.GloveFifo); err != nil {
+		return err
+	}
+	return put("cmd_embeddings.bin", fc.Cmd, fc.CmdFifo)
+}
+
+// c19Feed serves the named pipes of a case: as soon as a reader has opened one, its bytes are written and the pipe is closed.
+// stop ends the attempt (the child is gone without ever opening it).
+func c19Feed(dir string, fc c19FileCase, stop <-chan struct{}) *sync.WaitGroup {
+	d := dir
+	if fc.InSub {
+		d = filepath.Join(dir, "assets")
+	}
+	var wg sync.WaitGroup
+	feed := func(name string, data []byte) {
+		defer wg.Done()
+		for {
+			select {
+			case <-stop:
+				return
+			default:
+			}
+			fd, err := syscall.Open(filepath.Join(d, name), syscall.O_WRONLY|syscall.O_NONBLOCK, 0)
+			if err != nil { // ENXIO: nobody reads yet
+				time.Sleep(2 * time.Millisecond)
+				continue
+			}
+			syscall.SetNonblock(fd, false)
+			f := os.NewFile(uintptr(fd), name)
+			f.Write(data)
+			f.Close()
+			return
 		}
 	}
-	if fc.Cmd != nil {
-		if err := os.WriteFile(filepath.Join(d, "cmd_embeddings.bin"), fc.Cmd, 0o644); err != nil {
-			return err
-		}
+	if fc.GloveFifo && fc.Glove != nil {
+		wg.Add(1)
+		go feed("glove.bin", fc.Glove)
 	}
-	return nil
+	if fc.CmdFifo && fc.Cmd != nil {
+		wg.Add(1)
+		go feed("cmd_embeddings.bin", fc.Cmd)
+	}
+	return &wg
 }
 
 func engineC19Files(ctx *Ctx) {
@@ -896,9 +953,14 @@ func engineC19Files(ctx *Ctx) {
 		ctx.R.Begin(cs)
 		ctx.R.Eval(1)
 		ctx.R.Path(fc.Class, 1)
+		stop := make(chan struct{})
+		feeders := c19Feed(dir, fc, stop)
 		p := c19Run("c19embedload", dir, dbPath)
+		close(stop)
+		feeders.Wait()
 		os.RemoveAll(dir)
 		cs["child_rc"], cs["child_peak_rss_kib"] = p.RC, p.MaxRSSKiB
+		cs["glove_bin_is_a_pipe"], cs["cmd_embeddings_bin_is_a_pipe"] = fc.GloveFifo, fc.CmdFifo
 		wit := map[string]interface{}{"case": cs, "stderr_tail": vlib.Trunc(p.Err, 1500), "stdout": vlib.Trunc(p.Out, 300)}
 		if p.StartErr != "" {
 			ctx.R.Inconcl("child-not-started")
